@@ -429,7 +429,14 @@ macro_rules! propvalue_harness {
 propvalue_harness!(c09_propvalue_read_i4, 3, 0);
 propvalue_harness!(c09_propvalue_read_i2, 2, 0);
 propvalue_harness!(c09_propvalue_read_i1, 16, 0);
-propvalue_harness!(c09_propvalue_read_filetime, 64, 0);
+/// FILETIME: 8 payload bytes are read in one `read_exact` (a byte loop in ArrReader), so the unwind bound is 10
+#[kani::proof]
+#[kani::unwind(10)]
+#[kani::stub(std::fmt::format, crate::util::stub_format)]
+fn c09_propvalue_read_filetime() {
+    propvalue_read(64, 0);
+    kani::cover!(true);
+}
 propvalue_harness!(c09_propvalue_read_empty, 0, 0);
 propvalue_harness!(c09_propvalue_read_unknown, 5, 0);
 propvalue_harness!(c09_propvalue_read_lpstr_len0, 30, 0);
